@@ -294,7 +294,7 @@ func TestC06_SubsetsEnum(t *testing.T) {
 
 func TestC06_Errors(t *testing.T) {
 	c := harness.New(t, "C06", "errors",
-		"error classes of the statement, each embedded in an otherwise valid generated tree: an insert naming no reserve of the layout (block and expression form), two inserts with one name, a missing layout file, a layout that itself uses a layout, an insert into a used file that declares no reserve at all; loading must fail (or, for the recursive layout, loading or rendering). Non-trivial: all. Distinct by hash.")
+		"error classes of the statement, each embedded in an otherwise valid generated tree: an insert naming no reserve of the layout (block and expression form), two inserts with one name, a missing layout file, a layout that itself uses a layout (its @use first, last, or inside a branch or loop body, taken or not with the data of the call; naming another layout or itself), an insert into a used file that declares no reserve at all; loading must fail (or, for the recursive layout, loading or rendering). Non-trivial: all. Distinct by hash.")
 	defer c.Finish()
 	runRapid(t, c, 600, 7500, func(rt *rapid.T) {
 		env := genProgEnv().Draw(rt, "data")
@@ -326,7 +326,34 @@ func TestC06_Errors(t *testing.T) {
 				}
 			}
 		case "layout-uses-layout":
-			files["layouts/main"] = append([]*tw.Stmt{{Kind: tw.SUse, Name: "~outer"}}, layout...)
+			// the layout's own @use stands first, last, or inside a branch or loop body - also one that
+			// does not run with this data: the file uses a layout all the same
+			use := &tw.Stmt{Kind: tw.SUse, Name: rapid.SampledFrom([]string{"~outer", "~main", "layouts/outer"}).Draw(rt, "layoutUses")}
+			switch pos := rapid.SampledFrom([]string{"first", "last", "if-true", "if-false", "else-of-true", "each-empty", "each", "if-data"}).Draw(rt, "usePosition"); pos {
+			case "first":
+				files["layouts/main"] = append([]*tw.Stmt{use}, layout...)
+			case "last":
+				files["layouts/main"] = append(append([]*tw.Stmt{}, layout...), tw.Text("\n"), use)
+			default:
+				var wrap *tw.Stmt
+				switch pos {
+				case "if-true":
+					wrap = &tw.Stmt{Kind: tw.SIf, Branches: []tw.Branch{{Cond: tw.Bool(true), Body: []*tw.Stmt{use}}}}
+				case "if-false":
+					wrap = &tw.Stmt{Kind: tw.SIf, Branches: []tw.Branch{{Cond: tw.Bool(false), Body: []*tw.Stmt{use}}}}
+				case "if-data":
+					wrap = &tw.Stmt{Kind: tw.SIf, Branches: []tw.Branch{{Cond: tw.Var("b1"), Body: []*tw.Stmt{use}}}}
+				case "else-of-true":
+					wrap = &tw.Stmt{Kind: tw.SIf, Branches: []tw.Branch{{Cond: tw.Bool(true), Body: []*tw.Stmt{tw.Text("t")}}}, HasElse: true, Else: []*tw.Stmt{use}}
+				case "each-empty":
+					wrap = &tw.Stmt{Kind: tw.SEach, Name: "zz", E: tw.Var("ea"), Body: []*tw.Stmt{use}}
+				default:
+					wrap = &tw.Stmt{Kind: tw.SEach, Name: "zz", E: tw.Arr(intLit(1)), Body: []*tw.Stmt{use}}
+				}
+				at := rapid.IntRange(0, len(layout)).Draw(rt, "wrapAt")
+				files["layouts/main"] = append(append(append([]*tw.Stmt{}, layout[:at]...), wrap), layout[at:]...)
+			}
+			kind += ":" + map[bool]string{true: "top-level", false: "nested"}[len(collectUse(files["layouts/main"])) > 0]
 			files["layouts/outer"] = []*tw.Stmt{tw.Text("<outer>"), {Kind: tw.SReserve, Name: "r0"}}
 			// reported when loading or when rendering: either is an error
 			cs.LoadErr = false
@@ -340,11 +367,22 @@ func TestC06_Errors(t *testing.T) {
 		c.Case(true, mustJSON(cs.Files), "error:"+kind)
 		c.Sample(cs.sample())
 		r, f := runTreeCase(c, cs)
-		if kind == "layout-uses-layout" && r.LoadErr != "" {
+		if strings.HasPrefix(kind, "layout-uses-layout") && r.LoadErr != "" {
 			f = "" // rejected at load time: fine
 		}
 		if f != "" {
 			c.Fail(rt, kindOf(f), cs, "error", r, f)
 		}
 	})
+}
+
+// collectUse returns the top-level @use statements.
+func collectUse(ss []*tw.Stmt) []*tw.Stmt {
+	var out []*tw.Stmt
+	for _, s := range ss {
+		if s.Kind == tw.SUse {
+			out = append(out, s)
+		}
+	}
+	return out
 }
